@@ -621,6 +621,13 @@ pub fn pipe(sh: &Shared, e: &Sexp) -> Option<Ob> {
         }
       })
     }
+    // the scheduler-based operators and sources over the DEFAULT scheduler (post runs the task inline: C08's last
+    // clause) are sequential and deterministic: they are part of the sequential case language and of model A
+    ("observe_on_d", 1) => last()?.observe_on(schedulers::default_scheduler()),
+    ("subscribe_on_d", 1) => last()?.subscribe_on(schedulers::default_scheduler()),
+    ("interval_d", 0) => observables::interval(std::time::Duration::from_millis(0), schedulers::default_scheduler()).map(|n| V::int(n as i64)),
+    ("timer_d", 0) => observables::timer(std::time::Duration::from_millis(0), schedulers::default_scheduler()).map(|_| V::new(K::U)),
+    ("delay0", 1) => last()?.delay(std::time::Duration::from_millis(0)),
     ("observe_on", 1) => last()?.observe_on(schedulers::new_thread_scheduler()),
     ("subscribe_on", 1) => last()?.subscribe_on(schedulers::new_thread_scheduler()),
     ("interval", 1) => observables::interval(std::time::Duration::from_millis(a[0].nat()? as u64), schedulers::new_thread_scheduler()).map(|n| V::int(n as i64)),
@@ -878,6 +885,21 @@ pub fn step(sh: &Shared, e: &Sexp) -> Option<()> {
       Some("unwind") => user_unsub_using(sh, a[0].nat()?, true),
       _ => return None,
     },
+    // C08, last clause: the default scheduler runs the task synchronously in `post` (same thread, before post returns)
+    "dpost" => {
+      use another_rxrust::schedulers::scheduler::IScheduler;
+      let n = a[0].nat()?;
+      let s = schedulers::default_scheduler()();
+      let me = std::thread::current().id();
+      for i in 0..n {
+        let sh2 = sh.clone();
+        s.post(move || {
+          sh2.rec(format!("x{}:{}", 100 + i, if std::thread::current().id() == me { 1 } else { 0 }));
+        });
+        sh.rec(format!("x{}:2", 100 + i));
+      }
+      s.abort();
+    }
     "connect" => match sh.find(a[0].atom()?)? {
       Entry::Publish(p, conns) => {
         let c = p.connect();
